@@ -1,0 +1,10 @@
+//go:build verif
+
+package smgp30
+
+// Verification hook (build tag "verif" only): thin export, no behaviour.
+
+// VerifGenAuthenticatorClient exposes genAuthenticatorClient.
+func VerifGenAuthenticatorClient(clientID, secret string, timestamp uint32) ([]byte, error) {
+	return genAuthenticatorClient(clientID, secret, timestamp)
+}
